@@ -999,6 +999,8 @@ class HistogramBase(abc.ABC):
         if isinstance(other, HistogramBase):
             raise TypeError("Division of two histograms is not supported.")
         elif np.isscalar(other):
+            if other == 0:
+                raise ZeroDivisionError("Cannot divide a histogram by zero.")
             self._coerce_dtype(np.float64)
             self.frequencies = self.frequencies / other
             self.errors2 = self.errors2 / other**2
